@@ -122,6 +122,9 @@ LexWalk(segs, i, pos, above) ==
          IF s \in {".", ""} THEN LexWalk(segs, i + 1, pos, above)
          ELSE IF s = ".." THEN (IF pos # <<>> THEN LexWalk(segs, i + 1, SubSeq(pos, 1, Len(pos) - 1), above)
                                 ELSE LexWalk(segs, i + 1, pos, above + 1))
+         \* "ABS": an ABSOLUTE component -- the absolute path of <parent2> itself (the harness puts the real path there);
+         \* whatever follows is resolved from <parent2>, wherever the walk was
+         ELSE IF s = "ABS" THEN LexWalk(segs, i + 1, <<>>, 0)
          ELSE IF above > 0 THEN "outside"
          ELSE LexWalk(segs, i + 1, Append(pos, s), above)
 Walk(segs, i, depth) == LexWalk(segs, i, <<"parent", "root">>, 0)      \* (depth: kept for the callers, always 0)
